@@ -99,8 +99,14 @@ class ONd(object):
             raise ip.PyRaise(I.make_exc('ValueError', 'The truth value of an array with more than one element is ambiguous'))
         return I.truth(self.a.reshape(-1)[0], fr)
 
-    def _idx(self, idx):
+    def _idx(self, idx, I=None, fr=None):
         idx = unwrap(idx)
+        if isinstance(idx, np.ndarray) and idx.dtype == object and I is not None:
+            # boolean mask with symbolic entries: decided on this path (forks)
+            m = np.zeros(idx.shape, dtype=bool)
+            for k in np.ndindex(*idx.shape):
+                m[k] = bool(I.truth(idx[k], fr))
+            return m
         if isinstance(idx, S):
             c = idx.concrete()
             if c is None:
@@ -112,7 +118,7 @@ class ONd(object):
 
     def pv_getitem(self, I, fr, idx):
         try:
-            return wrap(self.a[self._idx(idx)])
+            return wrap(self.a[self._idx(idx, I, fr)])
         except IndexError as e:
             raise ip.PyRaise(I.make_exc('IndexError', str(e)))
 
@@ -120,7 +126,7 @@ class ONd(object):
         v = unwrap(val)
         if self.a.dtype != object and is_sym(val):
             raise Unsupported('symbolic value stored into a float array (np.empty / zeros are object arrays in this mode)')
-        self.a[self._idx(idx)] = v
+        self.a[self._idx(idx, I, fr)] = v
 
     def pv_binop(self, I, fr, name, other):
         n = name.strip('_')
@@ -341,6 +347,10 @@ class ObjNpModule(object):
                 return wrap(r) if isinstance(r, np.ndarray) else r
             if name in ('empty', 'zeros', 'ones', 'full'):
                 shape = ua[0]
+                dt = uk.get('dtype', ua[1] if len(ua) > 1 and name != 'full' else None)
+                dn = getattr(dt, 'name', None) or getattr(dt, '__name__', None) or (dt if isinstance(dt, str) else None)
+                if dn in ('bool', 'bool_', 'int', 'int64', 'int32'):
+                    return ONd(getattr(np, name)(shape, dtype=bool if dn.startswith('bool') else int))
                 fill = {'empty': None, 'zeros': 0.0, 'ones': 1.0}.get(name, ua[1] if len(ua) > 1 else None)
                 r = np.empty(shape, dtype=object)
                 r[...] = fill
@@ -351,6 +361,15 @@ class ObjNpModule(object):
                 return wrap(elementwise(name, ua))
             if name in ('any', 'all'):
                 return reduce_bool(I, fr, ua[0], name, uk.get('axis', ua[1] if len(ua) > 1 else None), uk.get('keepdims', False))
+            if name == 'logical_not':
+                x = ua[0]
+                if isinstance(x, (list, tuple)):
+                    x = np.array(x)
+                if isinstance(x, np.ndarray) and x.dtype != object:
+                    return wrap(np.logical_not(x))
+                if isinstance(x, bool):
+                    return not x
+                return wrap(np.vectorize(lambda v: core.s_not(sbool(v)) if isinstance(v, S) else (not v), otypes=[object])(np.asarray(x, dtype=object)))
             if name == 'cross':
                 a, b = [np.asarray(x) for x in ua[:2]]
                 if sym:
